@@ -34,9 +34,37 @@ package domain
 //@ trusted func NewRangeNotFoundError(tr telem.TimeRange) (err error)
 //@   ensures err != nil && __is(err, ErrRangeNotFound)
 
-//@ # prepare only reads the index and returns the closure that writes the index file
-//@ trusted func (ip *indexPersist) prepare(start int) (f func() error)
+//@ # WriteAt of the index file handle (promoted from the embedded fs.File, declared in io.WriterAt):
+//@ # the ghost file contract of x/io/fs restated for this receiver
+//@ trusted func (p *pointerPersist) WriteAt(b []byte, off int64) (n int, err error)
+//@   requires off >= 0
+//@   ensures err != nil ==> __eq(fs.SpecFile[p.File], old(fs.SpecFile[p.File]))
+//@   ensures err == nil ==> n == len(b) && len(fs.SpecFile[p.File]) == __ite(old(len(fs.SpecFile[p.File])) >= int(off) + len(b), old(len(fs.SpecFile[p.File])), int(off) + len(b))
+//@   ensures err == nil ==> (forall i int :: 0 <= i && i < len(b) ==> fs.SpecFile[p.File][int(off)+i] == b[i])
+//@   ensures err == nil ==> (forall i int :: 0 <= i && i < old(len(fs.SpecFile[p.File])) && (i < int(off) || i >= int(off) + len(b)) ==> fs.SpecFile[p.File][i] == old(fs.SpecFile[p.File][i]))
+//@   ensures err == nil ==> (forall i int :: old(len(fs.SpecFile[p.File])) <= i && i < int(off) ==> fs.SpecFile[p.File][i] == 0)
+//@   ensures forall g fs.File :: g != p.File ==> __eq(fs.SpecFile[g], old(fs.SpecFile[g]))
+//@   modifies fs.SpecFile
+//@ # prepare only reads the index and returns the closure that later rewrites the index file from
+//@ # pointer `start` on. The closure is verified too (pragma returned_closure), from an arbitrary
+//@ # heap and an arbitrary previous file content OLD (closure_requires), with one assertion after
+//@ # each file-system call: what a process crash right after that call leaves on disk (C02).
+//@ func (ip *indexPersist) prepare(start int) (f func() error)
+//@   pragma returned_closure
+//@   requires ip.p != nil && ip.idx != nil && 0 <= start && start <= len(ip.idx.mu.pointers) && nonnegPtrs(ip.idx.mu.pointers)
 //@   modifies nothing
+//@   # assumed where the closure is called: the handle is open, the file holds whole records, and
+//@   # the records below `start` are already on disk
+//@   closure_requires ip.p != nil && len(fs.SpecFile[ip.p.File]) % 26 == 0 && start*26 <= len(fs.SpecFile[ip.p.File])
+//@   # crash after Truncate, no loss: every byte that is in both the old and the new file is still there
+//@   assert_after "err := ip.p.Truncate(" err == nil ==> len(fs.SpecFile[ip.p.File]) == lenOfPointers*26 && (forall k int :: 0 <= k && k < lenOfPointers*26 && k < old(len(fs.SpecFile[ip.p.File])) ==> fs.SpecFile[ip.p.File][k] == old(fs.SpecFile[ip.p.File][k]))
+//@   assert_after "err := ip.p.Truncate(" err != nil ==> __eq(fs.SpecFile[ip.p.File], old(fs.SpecFile[ip.p.File]))
+//@   # crash after Truncate, nothing fabricated: a record beyond the old end of the file already
+//@   # holds its new pointer. FAILS when the index grows: the new tail is zero-filled until WriteAt
+//@   # runs (known finding, /verif/findings/c02_index_truncate_window_test.go)
+//@   assert_after "err := ip.p.Truncate(" err == nil ==> (forall k int :: old(len(fs.SpecFile[ip.p.File])) <= k && k < len(fs.SpecFile[ip.p.File]) ==> fs.SpecFile[ip.p.File][k] == pointerEncoded[k-start*26])
+//@   # after WriteAt (and at any later crash point): the file is exactly the prepared index
+//@   assert_after "_, err = ip.p.WriteAt(" err == nil ==> len(fs.SpecFile[ip.p.File]) == lenOfPointers*26 && (forall k int :: start*26 <= k && k < lenOfPointers*26 ==> fs.SpecFile[ip.p.File][k] == pointerEncoded[k-start*26]) && (forall k int :: 0 <= k && k < start*26 ==> fs.SpecFile[ip.p.File][k] == old(fs.SpecFile[ip.p.File][k]))
 
 //@ # a is b with p inserted at position k (every other pointer kept, in order)
 //@ spec func insertedAt(a []pointer, b []pointer, k int, p pointer) bool =
